@@ -41,7 +41,11 @@ def start(reach):
     endpoints.getDBusEndpoints = lambda reactor, addr, client=True: list(eps)
     try:
         fired = []
-        client.connect(clock, 'fake:').addBoth(fired.append)
+        try:
+            client.connect(clock, 'fake:').addBoth(fired.append)
+        except Exception as e:
+            # connect() returns a Deferred whatever the address list holds; an exception out of it is a failure of the case
+            fired.append('connect() raised %s: %s' % (type(e).__name__, e))
     finally:
         endpoints.getDBusEndpoints = orig
     return fired, eps, log, clock
@@ -61,8 +65,11 @@ def drive(ep, upto):
     if upto == 0:
         return None
     if upto == 'refuse':
-        for _ in range(6):
-            p.dataReceived(b'REJECTED EXTERNAL\r\n')
+        # a bus that refuses every mechanism, naming what it supports each time (as real daemons do), or naming only one
+        line = (b'REJECTED EXTERNAL DBUS_COOKIE_SHA1 ANONYMOUS\r\n', b'REJECTED EXTERNAL\r\n', b'REJECTED ANONYMOUS DBUS_COOKIE_SHA1\r\n')[_name_turn[0] % 3]
+        _name_turn[0] += 1
+        for _ in range(12):
+            p.dataReceived(line)
             if t.disconnecting:
                 break
         return None
@@ -116,6 +123,8 @@ def connect_case(reach, stage):
     want_order = ['ep%d' % i for i in range(len(reach) if first is None else first + 1)]
     if log != want_order:
         return '%s: endpoints tried %r, expected %r' % (what, log, want_order)
+    if fired and isinstance(fired[0], str):
+        return '%s: %s' % (what, fired[0])
     if first is None:
         if len(fired) != 1 or not isinstance(fired[0], failure.Failure):
             return '%s: connect Deferred fired %r, expected one failure' % (what, fired)
